@@ -82,8 +82,8 @@ class BranchContext:
     def enter(self, nwcond):
         #if not isinstance(nwcond,LinComb): nwcond = LinComb.ZERO+nwcond
         self.bak = self.ctx.backup()        
-        self.cond = nwcond
-        self.origguard = add_guard(nwcond)
+        self.cond = LinCombBool._ensurebool(nwcond)
+        self.origguard = add_guard(self.cond)
         
     def end(self):
         self.exit()
